@@ -40,8 +40,9 @@ def ibm_encode(value: float) -> int:
 
 def gen_word(rng, kind='normal') -> int:
     """A well-defined IBM word: true zero or a normalised fraction with a moderate exponent."""
-    if kind == 'zero' or rng.chance(0.03):
-        return 0
+    if kind == 'zero' or rng.chance(0.05):
+        # true zero, sometimes with the sign bit set (minus zero: equal to zero, printed differently)
+        return 0x80000000 if kind != 'zero' and rng.chance(0.4) else 0
     sign = 0x80000000 if rng.chance(0.3) else 0
     exp = rng.wpick([(6, rng.randrange(62, 69)), (2, rng.randrange(58, 72))])
     frac = rng.wpick([(5, rng.randrange(0x100000, 0x1000000)), (1, 0xffffff), (1, 0x100000), (1, rng.randrange(0x10, 0x100) << 16)])
